@@ -9,11 +9,18 @@ package scen
 // FIND_NODE / GET_VALUE / PUT_VALUE / GET_PROVIDERS / ADD_PROVIDER from a small
 // peer model kept in this file. Peers are honest, dial-failing, request-failing,
 // silent (the simulator fails the call only after a drawn virtual delay, or the
-// caller's own time-out fires first), slow (honest reply after a drawn delay).
+// caller's own time-out fires first), slow (honest reply after a drawn delay);
+// an otherwise honest peer may be failing, silent or slow only when asked to
+// store (PUT_VALUE / ADD_PROVIDER): it answers the look-up, so it is among the
+// peers the operation stores to, and the store phase is where it misbehaves
+// ("whatever the pattern of failing, silent or slow peers").
 // Contexts are cancelled at a drawn step, a drawn number of steps after the
 // lookup's Terminate event (the window between lookup and follow-up is
-// recognised from the event stream and from the age of the parked calls), or
-// by a drawn deadline.
+// recognised from the event stream and from the age of the parked calls), a
+// drawn number of steps after the operation's first store request showed up
+// (the store / fan-out phase of PutValue, Provide and the bulk operations;
+// recognisable from the requests alone, so for every client), or by a drawn
+// deadline ("every cancellation instant").
 //
 // Oracle rules (rule id -> clause of the property):
 //
@@ -22,9 +29,21 @@ package scen
 //	                  virtual time passed with nothing left to answer
 //	chan-not-closed   same, for the result channel of SearchValue /
 //	                  FindProvidersAsync (API call returned, channel still open)
-//	cancel-not-prompt context done, every parked call of the operation has been
-//	                  let observe it, 1 s of virtual time later the operation
-//	                  still has not returned
+//	cancel-not-prompt "returns promptly after its context is cancelled, whatever
+//	                  the pattern of failing, silent or slow peers": context done,
+//	                  every parked call of the operation whose context is done
+//	                  has been let observe that, 1 s of virtual time later the
+//	                  operation still has not returned. Calls of the operation
+//	                  that are parked under a context which outlived the caller's
+//	                  do not postpone the verdict: to the system they are peers
+//	                  that have not answered yet, and the return must not depend
+//	                  on them (owedTo). The rule is applied at every quiescent
+//	                  point after the context ended, in whichever phase that
+//	                  was (search, wait for stragglers, follow-up, store /
+//	                  fan-out), for all three clients; the probes
+//	                  probe_prompt_judged_<phase>, probe_<client>_cancel_<phase>
+//	                  and probe_<client>_ctx_done_in_store_phase show where the
+//	                  judged cancellations landed.
 //	optprovide-hang   the two rules above when the caller sits in
 //	                  (*optimisticState).waitForRPCs and not one ADD_PROVIDER
 //	                  RPC was ever issued for the key (own id so that this
@@ -120,6 +139,11 @@ func init() {
 			"probe_term_completed", "probe_term_starvation", "probe_term_stopped",
 			"probe_lazy_consumer", "probe_local_value", "probe_local_providers", "probe_drain_finished_op", "probe_background_left_for_close",
 			"probe_op_GetClosestPeers", "probe_op_FindPeer", "probe_op_GetValue", "probe_op_SearchValue", "probe_op_FindProviders", "probe_op_FindProvidersAsync", "probe_op_PutValue", "probe_op_Provide",
+			// store-phase-only peer faults; context ended in the store phase; the
+			// prompt-return rule judged through to the return, by phase
+			"fault_store_phase_only", "probe_deadline_mid_search", "probe_deadline_during_put_phase",
+			"probe_std_ctx_done_in_store_phase", "probe_ctx_done_in_store_phase_PutValue", "probe_ctx_done_in_store_phase_Provide", "probe_ctx_done_store_phase_silent_or_slow_peer",
+			"probe_prompt_judged_mid_search", "probe_prompt_judged_between_lookup_and_followup", "probe_prompt_judged_during_followup", "probe_prompt_judged_during_put_phase",
 		}
 		return sc
 	}
@@ -221,11 +245,44 @@ const (
 )
 
 type c03peer struct {
-	p      *simnet.Peer
-	mode   int
-	delay  time.Duration
-	values map[string][]byte
-	provs  map[string][]*simnet.Peer
+	p     *simnet.Peer
+	mode  int
+	delay time.Duration
+	// storeMode / storeDelay: a peer that is honest towards every look-up
+	// request (so it ends up in lookup results) but fails, stays silent or is
+	// slow when asked to store (PUT_VALUE, ADD_PROVIDER): pmHonest (none),
+	// pmReqErr, pmSilent or pmSlow. Only drawn for peers whose mode is pmHonest.
+	storeMode  int
+	storeDelay time.Duration
+	values     map[string][]byte
+	provs      map[string][]*simnet.Peer
+}
+
+func c03IsStore(t pb.Message_MessageType) bool {
+	return t == pb.Message_PUT_VALUE || t == pb.Message_ADD_PROVIDER
+}
+
+// modeOf: the behaviour of x towards request r - its general mode, or, for an
+// otherwise honest peer, its store-phase mode when r asks it to store.
+func (x *c03peer) modeOf(r *simnet.RPC) (int, time.Duration) {
+	if x.mode == pmHonest && x.storeMode != pmHonest && c03IsStore(r.Req.GetType()) {
+		return x.storeMode, x.storeDelay
+	}
+	return x.mode, x.delay
+}
+
+// drawStoreFault gives an honest peer a store-phase-only fault with a
+// probability that follows the fault level (none at level 0; at level 3 no peer
+// is honest in the first place).
+func (w *c03world) drawStoreFault(pm *c03peer, rng *subRng) {
+	pct := []int{0, 20, 45, 0}[w.cfg.FaultLevel]
+	if pm.mode != pmHonest || pct == 0 {
+		return
+	}
+	if rng.Intn(100) < pct {
+		pm.storeMode = []int{pmSilent, pmSlow, pmReqErr}[rng.Intn(3)]
+		pm.storeDelay = c03Delays[rng.Intn(len(c03Delays))]
+	}
 }
 
 type c03op struct {
@@ -258,7 +315,7 @@ type c03op struct {
 	// the consumer's count at the last look. See c03world.recordRoom.
 	pipe, seenRecv int
 
-	cancelMode  int // 0 none, 1 at step, 2 after Terminate, 3 deadline
+	cancelMode  int // 0 none, 1 at step, 2 after Terminate, 3 deadline, 4 after the first store request
 	cancelAfter int
 	deadline    time.Duration
 
@@ -280,6 +337,7 @@ type c03op struct {
 	cancelStep  int
 	cancelPhase string
 	termStep    int // step at which the Terminate event of the (un-cancelled) lookup was seen
+	storeStep   int // step at which the first store request (PUT_VALUE / ADD_PROVIDER) of the operation was seen parked
 	termReason  string
 	optimistic  bool // an ADD_PROVIDER under the DHT's own context was seen: optimistic path
 	finished    bool
@@ -288,6 +346,28 @@ type c03op struct {
 }
 
 func (op *c03op) name() string { return c03KindName[op.kind] }
+
+// storeKind: operations that end with a store / fan-out phase the caller waits for.
+func (op *c03op) storeKind() bool {
+	return op.kind == c03PutValue || op.kind == c03Provide || op.kind == c03ProvideMany || op.kind == c03PutMany
+}
+
+// hasEvents: can the phases of op's lookup be told from lookup events? The
+// standard client: yes. The accelerated client runs no lookup. The dual client
+// delegates PutValue and Provide to exactly one of its two instances (one
+// lookup, nobody but the caller cancels it), so the events are as usable as
+// the standard client's; its other operations run two lookups at once and
+// cancel one when the other has delivered, and the Terminate event of a
+// cancelled lookup is a coin (see pump).
+func (w *c03world) hasEvents(op *c03op) bool {
+	switch w.cfg.Client {
+	case "":
+		return true
+	case "dual":
+		return op.kind == c03PutValue || op.kind == c03Provide
+	}
+	return false
+}
 
 // c03api is the client under test: the routing operations it offers (nil: not
 // offered by this client).
@@ -514,6 +594,7 @@ func runC03(s *sim.Sim, c c03cfg) {
 			}
 			pm.delay = c03Delays[rng.Intn(len(c03Delays))]
 		}
+		w.drawStoreFault(pm, rng)
 		w.peers[p.ID] = pm
 	}
 	if c.FaultLevel == 3 {
@@ -845,9 +926,21 @@ func (w *c03world) genOp(i int, rng *subRng, usedTags map[string]bool) *c03op {
 			}
 		}
 		op.cancelMode, op.cancelAfter = 2, s.Draw("cancel-after-terminate", 3)
+		if op.storeKind() && s.Chance("cancel-in-store-phase", 1, 2) {
+			op.cancelMode, op.cancelAfter = 4, s.Draw("cancel-after-store", 3)
+		}
 	}
 	if c.Faulty {
-		switch s.Draw("cancel-mode", 6) {
+		switch s.Draw("cancel-mode", 7) {
+		case 6:
+			// a drawn number of steps after the operation's first store request
+			// (PUT_VALUE / ADD_PROVIDER) was seen: the store / fan-out phase, which
+			// every client shows in its requests (no lookup events needed)
+			if op.storeKind() {
+				op.cancelMode, op.cancelAfter = 4, s.Draw("cancel-after-store", 4)
+			} else {
+				op.cancelMode, op.cancelAfter = 1, s.Range("cancel-after", 1, 40)
+			}
 		case 3:
 			op.cancelMode, op.cancelAfter = 1, s.Range("cancel-after", 1, 40)
 		case 4:
@@ -858,8 +951,8 @@ func (w *c03world) genOp(i int, rng *subRng, usedTags map[string]bool) *c03op {
 				op.cancelMode, op.deadline = 0, 0 // see cancelSafe: a deadline cannot wait for a safe instant
 			}
 		}
-		if op.cancelMode == 2 && c.Client != "" {
-			// no lookup events from these clients: cancel at a drawn step instead
+		if op.cancelMode == 2 && !w.hasEvents(op) {
+			// no usable lookup events from this client: cancel at a drawn step instead
 			op.cancelMode, op.cancelAfter = 1, 1+3*op.cancelAfter
 		}
 		if op.cancelMode == 0 && (c.Client != "" || c.Quorum) {
@@ -893,9 +986,10 @@ func c03AppendUnique(l []*simnet.Peer, p *simnet.Peer) []*simnet.Peer {
 // operation; the goroutine parks at once so that starting it is a decision.
 func (w *c03world) spawn(op *c03op) {
 	s := w.s
-	if w.cfg.Client != "" || op.neverCancel {
-		// no lookup-event subscription (its context would have to be cancelled
-		// to end it): the caller's context hangs off context.Background()
+	if !w.hasEvents(op) || op.neverCancel {
+		// no lookup-event subscription (no usable events, see hasEvents; or its
+		// context would have to be cancelled to end it): the caller's context
+		// hangs off context.Background()
 		op.base = sim.WithTag(context.Background(), op.tag)
 	} else {
 		evCtx, evCancel := context.WithCancel(context.Background())
@@ -1047,7 +1141,10 @@ func (w *c03world) lateOK(p *sim.Parked) bool {
 		return x != nil && x.mode != pmDialFail && x.mode != pmDialTimeout
 	case *simnet.RPC:
 		x := w.peers[d.To]
-		if x == nil || (x.mode != pmHonest && x.mode != pmSlow) {
+		if x == nil {
+			return false
+		}
+		if m, _ := x.modeOf(d); m != pmHonest && m != pmSlow {
 			return false
 		}
 		key := string(d.Req.GetKey())
@@ -1132,15 +1229,21 @@ func (w *c03world) deliver(p *sim.Parked) {
 		if op := w.opOf(p); op != nil && d.Req.GetType() == pb.Message_ADD_PROVIDER && sim.TagOf(p.Ctx) == "" {
 			op.optimistic = true
 		}
+		mode := pmHonest
+		if x != nil && !w.warm {
+			if mode, _ = x.modeOf(d); mode != x.mode {
+				s.Count("fault_store_phase_only") // honest during the look-up, faulty when asked to store
+			}
+		}
 		switch {
-		case x == nil || (!w.warm && x.mode == pmReqErr):
+		case x == nil || mode == pmReqErr:
 			s.Count("fault_rpc_error")
 			s.Release(p, simnet.Reply{Err: errReqFailed})
-		case !w.warm && x.mode == pmSilent:
+		case mode == pmSilent:
 			s.Count("fault_silent_timeout")
 			s.Release(p, simnet.Reply{Err: errC03Timeout})
 		default:
-			if !w.warm && x.mode == pmSlow {
+			if mode == pmSlow {
 				s.Count("fault_slow_reply")
 			}
 			if w.carriesRecord(x, d) {
@@ -1173,8 +1276,10 @@ func (w *c03world) readyAt(p *sim.Parked) time.Duration {
 			return first + x.delay
 		}
 	case *simnet.RPC:
-		if x = w.peers[d.To]; x != nil && (x.mode == pmSilent || x.mode == pmSlow) {
-			return d.SentAt + x.delay
+		if x = w.peers[d.To]; x != nil {
+			if m, delay := x.modeOf(d); m == pmSilent || m == pmSlow {
+				return d.SentAt + delay
+			}
 		}
 	}
 	return 0
@@ -1403,10 +1508,16 @@ func (w *c03world) observe() {
 			w.onFinished(op)
 			continue
 		}
+		if op.storeStep == 0 && w.storesOut(op) > 0 {
+			op.storeStep = s.Steps
+		}
 		if !op.cancelled && op.ctx.Err() != nil { // the deadline passed
 			op.cancelled, op.cancelStep = true, s.Steps
+			op.cancelPhase = w.phaseOf(op)
 			s.Count("fault_deadline")
 			s.Count("probe_deadline_expired_in_flight")
+			s.Count("probe_deadline_" + op.cancelPhase)
+			w.countStorePhase(op)
 			s.Tracef("deadline %s", op.tag)
 		}
 		if op.cancelled {
@@ -1429,6 +1540,9 @@ func (w *c03world) onFinished(op *c03op) {
 		// at every quiescent point in between and held
 		s.Count("probe_prompt_checked")
 		s.Count("probe_returned_after_cancel")
+		if op.cancelPhase != "" {
+			s.Count("probe_prompt_judged_" + op.cancelPhase)
+		}
 		if op.apiReturned.Load() {
 			s.Count("probe_chan_closed_after_cancel")
 		}
@@ -1491,15 +1605,57 @@ func (w *c03world) countRPC(key string, t pb.Message_MessageType) int {
 // return.
 func (w *c03world) checkPrompt(op *c03op) {
 	s := w.s
-	if len(w.parkedOf(op)) > 0 {
+	if len(w.owedTo(op)) > 0 {
 		return
 	}
+	pending := w.pendingLive(op)
 	s.Sleep(c03PromptSlop)
 	w.pump()
-	if op.api.Done || len(w.parkedOf(op)) > 0 {
+	if op.api.Done || len(w.owedTo(op)) > 0 {
 		return
 	}
-	w.reportStuck(op, "cancel-not-prompt", fmt.Sprintf("context done since step %d, every parked call of the operation has observed it, yet %v of virtual time later it has not returned", op.cancelStep, c03PromptSlop))
+	what := fmt.Sprintf("context done since step %d, every parked call of the operation whose context is done has observed it, yet %v of virtual time later it has not returned", op.cancelStep, c03PromptSlop)
+	if len(pending) > 0 {
+		what += fmt.Sprintf(" - it is still waiting for %d request(s) that it runs under a context the caller's cancellation does not reach (%s): the peers addressed are merely slow or silent, which the caller's cancellation must not depend on", len(pending), strings.Join(pending, ", "))
+	}
+	w.reportStuck(op, "cancel-not-prompt", what)
+}
+
+// owedTo: what the scheduler still owes a cancelled operation before it may be
+// judged - the parked calls attributable to it whose context is done (they
+// have not been let observe that yet) and its own client-side parks (the lazy
+// consumer waiting for its turn to receive).
+//
+// A call of the operation that is parked under a context which is still live
+// after the caller's context ended is NOT owed anything: to the system that is
+// a peer that has not answered yet, a slow or silent peer, and the clause
+// "returns promptly after its context is cancelled, whatever the pattern of
+// failing, silent or slow peers" says the return must not depend on it. Work
+// the operation deliberately leaves to the background under the instance's
+// own context (optimistic provide's remaining ADD_PROVIDERs, the corrective
+// stores of a value search) is of that kind: it may stay parked as long as the
+// scheduler likes, the caller must be back.
+func (w *c03world) owedTo(op *c03op) []*sim.Parked {
+	var out []*sim.Parked
+	for _, p := range w.parkedOf(op) {
+		if p.Kind == "client" || p.Kind == "consume" || p.Cancelled() {
+			out = append(out, p)
+		}
+	}
+	return out
+}
+
+// pendingLive lists the calls attributable to op that are parked under a live
+// context (see owedTo), for the violation message.
+func (w *c03world) pendingLive(op *c03op) []string {
+	var out []string
+	for _, p := range w.parkedOf(op) {
+		if p.Kind == "client" || p.Kind == "consume" || p.Cancelled() {
+			continue
+		}
+		out = append(out, p.ID)
+	}
+	return out
 }
 
 // reportStuck files the violation for an operation that will not return.
@@ -1534,6 +1690,8 @@ func (w *c03world) applyCancels() bool {
 			due = s.Steps >= op.startStep+op.cancelAfter
 		case 2:
 			due = op.termStep > 0 && s.Steps >= op.termStep+op.cancelAfter
+		case 4:
+			due = op.storeStep > 0 && s.Steps >= op.storeStep+op.cancelAfter
 		}
 		if !due || !w.cancelSafe(op) {
 			continue
@@ -1542,6 +1700,10 @@ func (w *c03world) applyCancels() bool {
 		op.cancelPhase = w.phaseOf(op)
 		s.Count("fault_cancel")
 		s.Count("probe_cancel_" + op.cancelPhase)
+		if w.cfg.Client != "" {
+			s.Count("probe_" + w.cfg.Client + "_cancel_" + op.cancelPhase)
+		}
+		w.countStorePhase(op)
 		s.Tracef("cancel %s %s", op.tag, op.cancelPhase)
 		op.cancel()
 		s.Quiesce()
@@ -1570,6 +1732,17 @@ func (w *c03world) cancelSafe(op *c03op) bool {
 // the Terminate event and the age and type of its parked calls.
 func (w *c03world) phaseOf(op *c03op) string {
 	if op.termStep == 0 {
+		// no Terminate event (the search is still running, or the client / a
+		// deadline leaves no usable events): store requests the caller waits for
+		// are outstanding - the store / fan-out phase; else the search
+		for _, p := range w.parkedOf(op) {
+			if r, ok := p.Data.(*simnet.RPC); ok && r.Req.GetType() == pb.Message_ADD_PROVIDER && sim.TagOf(p.Ctx) == "" {
+				op.optimistic = true // optimistic provide stores while it searches
+			}
+		}
+		if op.storeKind() && !op.optimistic && w.storesOut(op) > 0 {
+			return "during_put_phase"
+		}
 		return "mid_search"
 	}
 	stragglers, follow, puts := 0, 0, 0
@@ -1597,6 +1770,47 @@ func (w *c03world) phaseOf(op *c03op) string {
 		return "during_put_phase"
 	}
 	return "after_search"
+}
+
+// storesOut: the store requests (PUT_VALUE / ADD_PROVIDER) attributable to op
+// that are parked.
+func (w *c03world) storesOut(op *c03op) int {
+	n, _ := w.storesOutSlow(op)
+	return n
+}
+
+// storesOutSlow: as storesOut, and how many of them address a peer that is
+// silent or slow when asked to store.
+func (w *c03world) storesOutSlow(op *c03op) (n, slow int) {
+	for _, p := range w.parkedOf(op) {
+		if r, ok := p.Data.(*simnet.RPC); ok && c03IsStore(r.Req.GetType()) {
+			n++
+			if x := w.peers[r.To]; x != nil {
+				if m, _ := x.modeOf(r); m == pmSilent || m == pmSlow {
+					slow++
+				}
+			}
+		}
+	}
+	return n, slow
+}
+
+// countStorePhase: probes for a context that ended (cancellation or deadline)
+// in the store / fan-out phase of an operation whose caller waits for it.
+func (w *c03world) countStorePhase(op *c03op) {
+	if op.cancelPhase != "during_put_phase" || !op.storeKind() {
+		return
+	}
+	s := w.s
+	client := w.cfg.Client
+	if client == "" {
+		client = "std"
+	}
+	s.Count("probe_" + client + "_ctx_done_in_store_phase")
+	s.Count("probe_ctx_done_in_store_phase_" + op.name())
+	if _, slow := w.storesOutSlow(op); slow > 0 {
+		s.Count("probe_ctx_done_store_phase_silent_or_slow_peer")
+	}
 }
 
 func (w *c03world) mainPhase() {
